@@ -4,23 +4,21 @@
 From Coq Require Import ZArith.
 From Join Require Import Tok Names Ast Comp Std Denote.
 
-Inductive sarg := SAExpr (o : operand) | SAVal (v : val).    (* SAVal: a block operand already captured *)
-Inductive node := NAct (a : action) (args : list sarg) | NWrap (a : action) (inner : list node).
+(* A step of a branch as a bracket structure.  e = the action's position within its step. *)
+Inductive node := NAct (e : nat) (a : action) | NWrap (e : nat) (a : action) (inner : list node).
 
-Definition init_args (a : action) : list sarg :=
-  if has_inner_exprs (a_comb a) then map SAExpr (a_ops a) else [].
-
-(* ---- bracket structure of one step: `X >>> inner <<< rest`; open wrappers close at the end ---- *)
-Definition nest_step (a : action) (st : list (list node)) : list (list node) :=
-  match a_mv a, st with
-  | NoMove, cur :: rest => (NAct a (init_args a) :: cur) :: rest
+(* `X >>> inner <<< rest`; wrappers still open at the end of the step close there *)
+Definition nest_step (ea : nat * action) (st : list (list node)) : list (list node) :=
+  match a_mv (snd ea), st with
+  | NoMove, cur :: rest => (NAct (fst ea) (snd ea) :: cur) :: rest
   | Unwrap, _ => [] :: st
-  | Wrap, [cur] => [[NWrap a cur]]
-  | Wrap, cur :: outer :: rest => (NWrap a cur :: outer) :: rest
+  | Wrap, [cur] => [[NWrap (fst ea) (snd ea) cur]]
+  | Wrap, cur :: outer :: rest => (NWrap (fst ea) (snd ea) cur :: outer) :: rest
   | _, [] => []
   end.
+Definition nest_levels (acts : list action) : list (list node) := fold_right nest_step [[]] (enum_from 0 acts).
 Definition nest (acts : list action) : option (list node) :=
-  match fold_right nest_step [[]] acts with [t] => Some t | _ => None end.
+  match nest_levels acts with [t] => Some t | _ => None end.
 
 (* the README's table: operator -> method *)
 Definition doc_method (c : comb) : string :=
@@ -33,8 +31,21 @@ Definition doc_method (c : comb) : string :=
   | Dot => "" | Then => "" | Initial => "" | UNWRAP => ""
   end.
 
+(* a block operand of an operator that takes expressions is evaluated ahead of its step *)
 Definition hoistable (c : comb) (o : operand) : bool :=
   is_replaceable c && has_inner_exprs c && is_block o.
+Definition exprs_of (a : action) : list operand := if has_inner_exprs (a_comb a) then a_ops a else [].
+
+(* captured block values, keyed by (branch, position in step, operand index) *)
+Definition key := (nat * nat * nat)%type.
+Definition key_eqb (k k' : key) : bool :=
+  let '(b, e, i) := k in let '(b', e', i') := k' in Nat.eqb b b' && Nat.eqb e e' && Nat.eqb i i'.
+Definition caps := list (key * val).
+Fixpoint lookup_cap (c : caps) (k : key) : option val :=
+  match c with
+  | [] => None
+  | (k', v) :: r => if key_eqb k' k then Some v else lookup_cap r k
+  end.
 
 Section Spec.
   Variable msem : string -> option (list operand) -> dval -> list dval -> comp dval.
@@ -45,29 +56,40 @@ Section Spec.
   Notation snapshot := (list (string * option val)).
 
   (* ---- phase 1 of a step: block operands are evaluated, in branch-then-position order ---- *)
-  Definition capture_arg (sn : snapshot) (c : comb) (a : sarg) : comp sarg :=
-    match a with
-    | SAExpr o => if hoistable c o then Vis (EEval o sn) (fun v => Ret (SAVal v)) else Ret a
-    | SAVal _ => Ret a
+  Fixpoint capture_ops (sn : snapshot) (b e i : nat) (c : comb) (ops : list operand) : comp caps :=
+    match ops with
+    | [] => Ret []
+    | o :: r =>
+        if hoistable c o
+        then Vis (EEval o sn) (fun v => let! rest := capture_ops sn b e (S i) c r in Ret (((b, e, i), v) :: rest))
+        else capture_ops sn b e (S i) c r
     end.
-  Fixpoint capture_node (sn : snapshot) (n : node) : comp node :=
+  Fixpoint capture_node (sn : snapshot) (b : nat) (n : node) : comp caps :=
     match n with
-    | NAct a args => let! args' := mapM (capture_arg sn (a_comb a)) args in Ret (NAct a args')
-    | NWrap a inner =>
-        let! inner' := (fix go (l : list node) : comp (list node) :=
-                          match l with
-                          | [] => Ret []
-                          | x :: r => let! x' := capture_node sn x in let! r' := go r in Ret (x' :: r')
-                          end) inner in
-        Ret (NWrap a inner')
+    | NAct e a => capture_ops sn b e 0 (a_comb a) (exprs_of a)
+    | NWrap _ _ inner =>
+        (fix go (l : list node) : comp caps :=
+           match l with
+           | [] => Ret []
+           | x :: r => let! c1 := capture_node sn b x in let! c2 := go r in Ret (c1 ++ c2)
+           end) inner
     end.
-  Definition capture_nodes (sn : snapshot) (ns : list node) : comp (list node) := mapM (capture_node sn) ns.
+  Fixpoint capture_nodes (sn : snapshot) (b : nat) (ns : list node) : comp caps :=
+    match ns with
+    | [] => Ret []
+    | x :: r => let! c1 := capture_node sn b x in let! c2 := capture_nodes sn b r in Ret (c1 ++ c2)
+    end.
 
   (* ---- phase 2: the documented chain ---- *)
-  Definition eval_arg (sn : snapshot) (a : sarg) : comp dval :=
-    match a with
-    | SAExpr o => Vis (EEval o sn) (fun v => Ret (DV v))
-    | SAVal v => Ret (DV v)
+  Fixpoint eval_args (sn : snapshot) (cp : caps) (b e i : nat) (c : comb) (ops : list operand) : comp (list dval) :=
+    match ops with
+    | [] => Ret []
+    | o :: r =>
+        let! d := (if hoistable c o
+                   then match lookup_cap cp (b, e, i) with Some v => Ret (DV v) | None => Panic P_UNBOUND end
+                   else Vis (EEval o sn) (fun v => Ret (DV v))) in
+        let! ds := eval_args sn cp b e (S i) c r in
+        Ret (d :: ds)
     end.
   Definition types_of (a : action) : option (list operand) :=
     match a_comb a with
@@ -81,16 +103,19 @@ Section Spec.
     | _, _ => Panic P_ILLTYPED
     end.
 
-  Fixpoint sem_node (async : bool) (sn : snapshot) (n : node) (recv : comp dval) {struct n} : comp dval :=
+  Fixpoint sem_node (async : bool) (sn : snapshot) (cp : caps) (b : nat) (n : node) (recv : comp dval) {struct n}
+    : comp dval :=
     let sem_nodes := fix go (l : list node) (r : comp dval) {struct l} : comp dval :=
-                       match l with [] => r | x :: t => go t (sem_node async sn x r) end in
+                       match l with [] => r | x :: t => go t (sem_node async sn cp b x r) end in
     match n with
-    | NAct a args =>
+    | NAct e a =>
+        let args := eval_args sn cp b e 0 (a_comb a) (exprs_of a) in
         match a_comb a with
-        | Initial => match args with [x] => eval_arg sn x | _ => Panic P_STUCK end
+        | Initial => let! ds := args in match ds with [x] => Ret x | _ => Panic P_STUCK end
         | Then =>                      (* e(v): the callee expression is evaluated first *)
-            match args with
-            | [x] => let! f := eval_arg sn x in let! r := recv in apply callsem f [r]
+            let! ds := args in
+            match ds with
+            | [f] => let! r := recv in apply callsem f [r]
             | _ => Panic P_STUCK
             end
         | Dot => match a_ops a with
@@ -99,15 +124,17 @@ Section Spec.
                  end
         | UNWRAP => Panic P_STUCK
         | Inspect =>
-            match args with
-            | [x] => if async
-                     then let! r := recv in let! f := eval_arg sn x in msem "inspect" None r [f]
-                     else let! f := eval_arg sn x in let! r := recv in inspect_sem f r
-            | _ => Panic P_STUCK
-            end
-        | c => let! r := recv in let! ds := mapM (eval_arg sn) args in msem (doc_method c) (types_of a) r ds
+            if async
+            then let! r := recv in let! ds := args in
+                 match ds with [f] => msem "inspect" None r [f] | _ => Panic P_STUCK end
+            else let! ds := args in
+                 match ds with
+                 | [f] => let! r := recv in inspect_sem f r
+                 | _ => Panic P_STUCK
+                 end
+        | c => let! r := recv in let! ds := args in msem (doc_method c) (types_of a) r ds
         end
-    | NWrap a inner =>
+    | NWrap e a inner =>
         let clo := DF (fun vs => match vs with
                                  | [v] => let! d := sem_nodes inner (Ret (DV v)) in to_val d
                                  | _ => Panic P_ILLTYPED end) in
@@ -117,9 +144,9 @@ Section Spec.
         | c => let! r := recv in msem (doc_method c) None r [clo]
         end
     end.
-  Definition sem_nodes (async : bool) (sn : snapshot) : list node -> comp dval -> comp dval :=
+  Definition sem_nodes (async : bool) (sn : snapshot) (cp : caps) (b : nat) : list node -> comp dval -> comp dval :=
     fix go (l : list node) (r : comp dval) {struct l} : comp dval :=
-      match l with [] => r | x :: t => go t (sem_node async sn x r) end.
+      match l with [] => r | x :: t => go t (sem_node async sn cp b x r) end.
 
   (* ---- programs ---- *)
   Notation await_d := (await_d awaitsem).
@@ -164,14 +191,17 @@ Section Spec.
   Definition start (st : state) (b : nat) : comp dval :=
     if is_async cfg then Ret (DFut (let! d := get st b in to_val d)) else get st b.
 
-  Definition chain (sn : snapshot) (st : state) (bt : nat * list node) : comp dval :=
-    sem_nodes (is_async cfg) sn (snd bt) (start st (fst bt)).
+  Definition chain (sn : snapshot) (cp : caps) (k : nat) (st : state) (b : nat) : comp dval :=
+    sem_nodes (is_async cfg) sn cp b (tree b k) (start st b).
 
   Definition vals_tuple (ds : list dval) : comp dval :=
     match all_vals ds with Some vs => Ret (DV (VTuple vs)) | None => Panic P_ILLTYPED end.
 
-  Definition captures (sn : snapshot) (k : nat) (acts : list nat) : comp (list (nat * list node)) :=
-    mapM (fun b => let! t := capture_nodes sn (tree b k) in Ret (b, t)) acts.
+  Fixpoint captures (sn : snapshot) (k : nat) (acts : list nat) : comp caps :=
+    match acts with
+    | [] => Ret []
+    | b :: r => let! c1 := capture_nodes sn b (tree b k) in let! c2 := captures sn k r in Ret (c1 ++ c2)
+    end.
 
   (* the value a step produces for its active branches, as one "step result" *)
   Definition step_result (k : nat) (st : state) : comp dval :=
@@ -179,29 +209,29 @@ Section Spec.
     let acts := actives k in
     let multi := Nat.ltb 1 (List.length acts) in
     if is_async cfg then
-      let! trees := captures sn k acts in
+      let! cp := captures sn k acts in
       if multi then
         (* every branch's future is built (its operand expressions evaluated), then all are joined *)
-        let! futs := mapM (fun bt => let! d := chain sn st bt in
-                                     if is_spawn cfg
-                                     then match d with DFut _ | DV _ => Ret d | _ => Panic P_ILLTYPED end
-                                     else Ret d) trees in
+        let! futs := mapM (fun b => let! d := chain sn cp k st b in
+                                    if is_spawn cfg
+                                    then match d with DFut _ | DV _ => Ret d | _ => Panic P_ILLTYPED end
+                                    else Ret d) acts in
         let! v := (if is_try cfg then try_join_seq awaitsem futs [] else join_seq awaitsem futs) in
         Ret (DV v)
       else
-        match trees with
-        | [bt] => let! d := chain sn st bt in let! v := await_d d in Ret (DV v)
+        match acts with
+        | [b] => let! d := chain sn cp k st b in let! v := await_d d in Ret (DV v)
         | _ => Panic P_STUCK
         end
     else if is_spawn cfg && multi then
       (* one named thread per active branch; all are spawned, then all are joined, in branch order *)
       let! builders := mapM (fun b => thread_builder (Z.of_nat b)) acts in
-      let! trees := captures sn k acts in
-      let! handles := mapM (fun nbt => match fst nbt with
-                                       | DBuilder name =>
-                                           let! h := std_spawn name (fun _ => let! d := chain sn st (snd nbt) in to_val d) in
-                                           std_unwrap h
-                                       | _ => Panic P_ILLTYPED end) (combine builders trees) in
+      let! cp := captures sn k acts in
+      let! handles := mapM (fun nb => match fst nb with
+                                      | DBuilder name =>
+                                          let! h := std_spawn name (fun _ => let! d := chain sn cp k st (snd nb) in to_val d) in
+                                          std_unwrap h
+                                      | _ => Panic P_ILLTYPED end) (combine builders acts) in
       let! hs := vals_tuple handles in
       let! vs := mapM (fun h => match h with
                                 | VHandle i => let! r := std_join i in let! u := std_unwrap r in to_val u
@@ -209,10 +239,10 @@ Section Spec.
                       (match hs with DV (VTuple l) => l | _ => [] end) in
       Ret (DV (VTuple vs))
     else
-      let! trees := captures sn k acts in
-      if multi then let! ds := mapM (chain sn st) trees in vals_tuple ds
-      else match trees with
-           | [bt] => chain sn st bt
+      let! cp := captures sn k acts in
+      if multi then let! ds := mapM (chain sn cp k st) acts in vals_tuple ds
+      else match acts with
+           | [b] => chain sn cp k st b
            | _ => Panic P_STUCK
            end.
 
